@@ -277,6 +277,11 @@ func Concrete(v uint64) uint64 { return v }
 // with another node's hash. Engine only (ideal-hash assumption); natively a no-op.
 func NodeHashesSeparated() {}
 
+// Unhashed: part of the ideal-hash model. The free value *f (a pointer to a felt.Felt) is independent of
+// every hash output computed on the path, before or after the call: it is neither such an output nor within
+// 251 above one (node hashes are H or H+len). Natively a no-op: a value read from the replay file is what it is.
+func Unhashed(f any) {}
+
 // ---- engine model of context.WithCancel (natively the real context package is used) ----
 
 type modelCtx struct {
